@@ -188,3 +188,39 @@ fn k_wire_window_with_count__two() {
   assert!(w2.is(&[EV_C]) || w2.is(&[EV_N | 3, EV_C]), "wire.window_with_count: the last window did not get the source terminal");
   kani::cover!(true, "harness reaches its end");
 }
+
+// start_with + an early stop by the downstream during the prologue: the source must not be left with a live observer (C06)
+#[kani::proof]
+#[kani::unwind(4)]
+fn k_wire_start_with__early_stop_leaves_source_unsubscribed() {
+  let sa: &'static Slot<Observer<'static, u8>> = Slot::new();
+  let log = Log::new();
+  let _s = hot(sa).start_with([1u8, 2, 3].into_iter()).take(2).subscribe(
+    move |x: u8| log.push(EV_N | x as u32), move |e: RxError| log.push(EV_E), move || log.push(EV_C));
+  assert!(log.is(&[EV_N | 1, EV_N | 2, EV_C]), "wire.start_with: trace differs");
+  assert!(match sa.get() { None => true, Some(o) => !o.is_subscribed() }, "wire.start_with.teardown: the downstream ended during the prologue but the source was subscribed with a live observer");
+  kani::cover!(true, "harness reaches its end");
+}
+
+// group_by with an erroring source: the outer observable AND every group get the error (same payload), not a completion
+#[kani::proof]
+#[kani::unwind(4)]
+fn k_wire_group_by__error_reaches_groups() {
+  let sa: &'static Slot<Observer<'static, u8>> = Slot::new();
+  let outer = Log::new();
+  let g0 = Log::new();
+  let _s = hot(sa).group_by(|x: u8| x % 2).subscribe(
+    move |g: Observable<'static, u8>| {
+      outer.push(EV_N);
+      g.subscribe(move |x: u8| g0.push(EV_N | x as u32), move |e: RxError| g0.push(EV_E | err_id(&e)), move || g0.push(EV_C));
+    },
+    move |e: RxError| outer.push(EV_E | err_id(&e)),
+    move || outer.push(EV_C),
+  );
+  let a = sa.get().unwrap();
+  a.next(2);
+  a.error(err(9));
+  assert!(outer.is(&[EV_N, EV_E | 9]), "wire.group_by: the outer observable did not get the source error unchanged");
+  assert!(g0.is(&[EV_N | 2, EV_E | 9]), "wire.group_by: a group did not get the source error (same payload) as its terminal");
+  kani::cover!(true, "harness reaches its end");
+}
